@@ -273,7 +273,7 @@ def run_shard(ctx: Ctx) -> None:
         if msg:
             raise Violation(msg, {"schema_text": text, "schema_pickle": pickle_b64(s), "frames_pickle": pickle_b64(frames)})
 
-    hyp_run(ctx, case(), body, ctx.n(3200, 60000))
+    hyp_run(ctx, case(), body, ctx.n(4800, 60000))
 
 
 def replay(c: Dict[str, Any]) -> Optional[str]:
